@@ -77,6 +77,13 @@ CLAIMED["C15"] = dict(
          "never all-zero (RotMetaRSA slot detection).",
     ref="DESIGN.md section 3 C15")
 
+CLAIMED["C01"] = dict(
+    technique="symbolic execution of the real MBI builder and parser for one class per mixin composition of the device "
+              "database (symx) over stub keys / UF crypto + z3 QF_BV",
+    note="Out of the claim: BCA/FCF/CertBlockVx classes, payloads beyond the bounds, real keys/signatures, YAML plumbing, "
+         "custom TrustZone in CRC-manifest classes, re-export identity where the image type is ambiguous.",
+    ref="DESIGN.md section 3 C01")
+
 NOT_APPLICABLE = {
     "C18": "quantifies over OS-level crash points of a pickle file and over process schedules around a FileLock; the "
            "deciding code is pickle (C) / the file system / the scheduler - no SPSDK arithmetic or layout to encode; "
